@@ -230,6 +230,82 @@ def check_rk_call(reg, src, prop, implicit, adaptive):
     return fi
 
 
+RICH = "generate_richardson_integrator.RichardsonExtrapolatedIntegrator"
+
+
+def check_richardson_call(reg, src, prop):
+    """RichardsonExtrapolatedIntegrator.__call__ (the wrapper's own step-size logic) for symplectic and non-symplectic bases, steps of
+    either sign.  adaptive_richardson is replaced by what it returns for a fixed-step basis (the whole requested step: dt0 == dTime ==
+    timestep; C01 proves its extrapolation part), update_timestep by its contract proved above (same sign, corr in [1 - pi/4,
+    1 + pi/2), redo iff corr < 0.81), the recursive retry by the wrapper's own contract (induction on the retry depth).  The two
+    halving / doubling loops of the symplectic branch are cut by invariants that include their *progress* condition: whenever the
+    guard holds, halving (doubling) moves |next_timestep| toward the value the guard compares it with -- then the loop terminates
+    after finitely many iterations (geometric approach of a fixed non-zero bound), otherwise it never does."""
+    fi = src.func(FT, RICH + ".__call__")
+    for symplectic in (False, True):
+        ex = Executor(src, reg, prop=prop)
+        ex.global_axioms = ex.global_axioms + transcendental_axioms(ex)
+        st = State()
+        h = z3.Real("h_req")
+        st.assume(h != 0)
+        sd = st.new_obj("dict", "dict", items={})
+        selfobj = st.new_obj("RichardsonExtrapolatedIntegrator", fields=dict(symplectic=symplectic, solver_dict=sd, dState=None, dTime=None))
+
+        def adaptive_richardson(ex_, st_, ctx, args, kwargs):
+            ts = args[5]
+            return (ts, (ts, z3.Real(fresh_name("dy"))), z3.Real(fresh_name("diff")))
+
+        def update_timestep(ex_, st_, ctx, args, kwargs):
+            o = st_.obj(st_.obj(args[0]).fields["solver_dict"]).items
+            ts = to_real(o["timestep"])
+            corr = z3.Real(fresh_name("corr"))
+            st_.assume(z3.And(corr >= 1 - PI / 4, corr < 1 + PI / 2))
+            redo = corr < z3.Q(81, 100)
+            st_.ghost.setdefault("controller", []).append(dict(ts=ts, corr=corr, redo=redo))
+            return (corr * ts, redo)
+
+        def recursive(ex_, st_, ctx, args, kwargs):
+            # the wrapper's own contract (I1 / I2), applied to the retry; pre-condition: a non-zero step of the same sign, strictly shorter
+            nxt = to_real(args[5])
+            last = st_.ghost["controller"][-1]
+            ex_.prove(st_, ctx, z3.And(nxt != 0, z3.Implies(h > 0, nxt > 0), z3.Implies(h < 0, nxt < 0), zabs(nxt) < zabs(last["ts"])), "pre@callsite",
+                      "retry-is-a-strictly-shorter-step-of-the-same-sign")
+            dT, nd = z3.Real(fresh_name("dT_retry")), z3.Real(fresh_name("new_dt_retry"))
+            st_.assume(z3.And(z3.Implies(nxt > 0, z3.And(dT > 0, dT <= nxt, nd > 0)), z3.Implies(nxt < 0, z3.And(dT < 0, dT >= nxt, nd < 0))))
+            st_.ghost["retried"] = True
+            return (nd, (dT, z3.Real(fresh_name("dS_retry"))))
+        ex.call_hooks[RICH.split(".")[-1] + ".adaptive_richardson"] = adaptive_richardson
+        ex.call_hooks[RICH.split(".")[-1] + ".update_timestep"] = update_timestep
+        ex.call_hooks[RICH.split(".")[-1] + ".__call__"] = recursive
+        same_sign = "((dt0 > 0 and next_timestep > 0 and new_timestep > 0) or (dt0 < 0 and next_timestep < 0 and new_timestep < 0))"
+        loops = {0: {"invariant": [same_sign + " and abs(next_timestep) <= abs(dt0)",
+                                   # progress: while the guard holds, halving brings |next| down toward |new| (which it exceeds)
+                                   "implies(LOOP_GUARD, abs(new_timestep) < abs(next_timestep))"]},
+                 1: {"invariant": [same_sign + " and abs(next_timestep) >= abs(dt0)",
+                                   "implies(LOOP_GUARD, abs(0.8 * new_timestep + 0.2 * timestep) > 2 * abs(next_timestep))"]}}
+        from pyvc.executor import Contract
+        c = Contract(FT, RICH + ".__call__", sorts={}, requires=[], ensures=[], loops=loops)
+        ctx = Ctx(fi, c, fi.cls, tag="RichardsonExtrapolatedIntegrator.__call__[%s]" % ("symplectic" if symplectic else "non-symplectic"))
+        ctx.entry = st.fork()
+        consts = st.new_obj("dict", "dict", items={})
+        paths = ex.call_function(fi, [selfobj, UFunc("rhs", "real"), z3.Real("t"), z3.Real("y"), consts, h], {}, st, ctx, contract=c)
+        n_ret = 0
+        for k, (s, v) in enumerate(paths):
+            if isinstance(v, Raised):
+                reg.ground("%s/%s/no-exception#%d" % (prop, ctx.tag, k), "post-exc", "__call__", False, detail=repr(v.exc))
+                continue
+            n_ret += 1
+            new_dt, (dT, dS) = v
+            ex.prove(s, ctx, z3.And(z3.Implies(h > 0, to_real(dT) > 0), z3.Implies(h < 0, to_real(dT) < 0), zabs(to_real(dT)) <= zabs(h)), "post", "I1-dTime-sign-and-bound#path%d" % k)
+            ex.prove(s, ctx, z3.And(z3.Implies(h > 0, to_real(new_dt) > 0), z3.Implies(h < 0, to_real(new_dt) < 0)), "post", "I2-new-dt-sign#path%d" % k)
+            last = s.ghost["controller"][-1]
+            # a step the controller rejected is not handed back: it was retried (non-symplectic: always; symplectic: unless the doubling branch cleared the flag)
+            if not symplectic:
+                ex.prove(s, ctx, z3.Implies(last["redo"], z3.BoolVal(bool(s.ghost.get("retried")))), "post", "rejected-step-is-retried#path%d" % k)
+        reg.ground("%s/%s/paths-explored" % (prop, ctx.tag), "lemma", "__call__", n_ret >= 2, detail="%d returning paths" % n_ret)
+    return fi
+
+
 def check_symplectic_call(reg, src, prop):
     ex = Executor(src, reg, prop=prop)
     fi = src.func(FT, "ExplicitSymplecticIntegrator.__call__")
